@@ -1,19 +1,19 @@
 CONSTANTS
   MergeFix = TRUE
   LazyChecks = FALSE
-  MaxNodes = 4
+  MaxNodes = 3
   MaxSg = 2
   Threads = {"main"}
   BiPropMode = TRUE
   Execs = {"st"}
   MaxClears = 1
   MaxEvals = 2
-  MaxEdges = 2
+  MaxEdges = 3
   MaxMarks = 0
   PropAllowed = TRUE
   SetAllAllowed = FALSE
   LateEdges = FALSE
-  RoundNodes <- RN_3_1
+  RoundNodes <- RN_2_1
 INIT MCInit
 NEXT MCNext
 CHECK_DEADLOCK FALSE
